@@ -6,6 +6,7 @@ pub mod gen;
 pub mod child;
 pub mod eng;
 pub mod store;
+pub mod plan;
 
 pub use runner::{CheckResult, Ctx, Fail, Obs, Tier};
 pub use val::{V, VT};
